@@ -54,7 +54,7 @@ MUTATIONS = [
     dict(name="partial-match-not-reemitted", edits=[("private/multipart_parser.h", "\t\t\t\t\t\t\t\t\tstd::streamsize s=out->sputn(this_boundary,position_);", "\t\t\t\t\t\t\t\t\tstd::streamsize s=position_ > 5 ? position_ : out->sputn(this_boundary,position_);")]),
     dict(name="restart-ignores-cr", edits=[("private/multipart_parser.h", "\t\t\t\t\t\t\t\t\tif(c == boundary_[0])\n\t\t\t\t\t\t\t\t\t\tposition_=1;", "")]),
     dict(name="eof-accepts-trailing-bytes", edits=[("private/multipart_parser.h", "\t\t\t\t\t\tif(buffer + 1 == buffer_end) {\n\t\t\t\t\t\t\tbuffer++;\n\t\t\t\t\t\t\treturn eof;\n\t\t\t\t\t\t}\n\t\t\t\t\t\telse\n\t\t\t\t\t\t\treturn parsing_error;", "\t\t\t\t\t\tbuffer=buffer_end;\n\t\t\t\t\t\treturn eof;")]),
-    dict(name="length-mismatch-at-eof-accepted", edits=[("src/http_request.cpp", "\t\t\t\t\tif(d->read_size != d->content_length) \n\t\t\t\t\t\treturn 400;", "")]),
+    # ("length mismatch at eof accepted" is an equivalent mutant: bytes after the final boundary are a parse error anyway)
     dict(name="missing-final-boundary-accepted", edits=[("src/http_request.cpp", "\t\t\tif(begin==end && d->read_size==d->content_length && r!=multipart_parser::eof) {\n\t\t\t\treturn 400;\n\t\t\t}", "")]),
     dict(name="multipart-limit-off-by-one", edits=[("src/http_request.cpp", "if(d->content_length > d->limits.multipart_form_data_limit())", "if(d->content_length > d->limits.multipart_form_data_limit() + 1)")]),
     dict(name="crlfcrlf-position-not-reset", edits=[("private/multipart_parser.h", "\t\t\t\t\t\t\theader_.clear();\n\t\t\t\t\t\t\tposition_ = 0;\n\t\t\t\t\t\t\tstate_ = expecting_separator_boundary;", "\t\t\t\t\t\t\theader_.clear();\n\t\t\t\t\t\t\tposition_ = (files_.size() == 2 ? 1 : 0);\n\t\t\t\t\t\t\tstate_ = expecting_separator_boundary;")]),
